@@ -2,6 +2,8 @@ I = "src/image.rs"
 
 KD_DIST_OLD = ("            let [r0, g0, b0] = rgb;\n            let [r1, g1, b1] = node.color;\n            (r0 as i32 - r1 as i32).pow(2)\n"
                "                + (g0 as i32 - g1 as i32).pow(2)\n                + (b0 as i32 - b1 as i32).pow(2)\n")
+ARGMIN_OLD = ("            tree.children\n                .iter()\n                .enumerate()\n                .filter_map(|(index, node)| Some((index, node.info().min_color_count?)))\n"
+              "                .min_by_key(|(_, min_tail_tree)| *min_tail_tree)\n                .map(|(index, _)| index)\n")
 BLEND_Q = "                if color.to_rgba()[3] < 255 {\n                    color = bg.blend_over(color);\n                }\n"
 SWAP_OLD = '                for col in 0..ewidth {\n                    errors[col] = errors[col + ewidth];\n                    errors[col + ewidth] = ColorError::new();\n                }\n'
 NEAR_OLD = ("            let (guess, guess_dist) = match next {\n                None => (node, node_dist),\n                Some(next_index) => {\n"
@@ -432,4 +434,57 @@ MUTANTS = [
                (I, "img.iter().map(|c| blend(bg, *c)).collect()", "img.iter().map(|c| flatten_over(bg, *c)).collect()"),
                (I, "/// Color palette which implements fast NNS with euclidean distance.\n", "fn flatten_over(bg: RGBA, color: RGBA) -> RGBA {\n    if color.to_rgba()[3] < 255 {\n        bg.blend_over(color)\n    } else {\n        color\n    }\n}\n\n"
                    "/// Color palette which implements fast NNS with euclidean distance.\n")]},
+    # ---- robustness round L2: default background as a match / if-let / map_or, argmin as a loop, 3-bit mask distributed, find's pair rebuilt ----------------
+    {"id": "C13-benign-default-bg-match-const", "prop": "C13", "benign": True,
+     "edits": [(I, "let bg = bg.unwrap_or_else(|| RGBA::new(0, 0, 0, 255));",
+                "const OPAQUE: u8 = 255;\n        let bg = match bg {\n            Some(bg) => bg,\n            None => RGBA::new(0, 0, 0, OPAQUE),\n        };")]},
+    {"id": "C13-benign-default-bg-if-let", "prop": "C13", "benign": True,
+     "edits": [(I, "let bg = bg.unwrap_or_else(|| RGBA::new(0, 0, 0, 255));",
+                "let bg = if let Some(given) = bg { given } else { RGBA::new(0, 0, 0, u8::MAX) };")]},
+    {"id": "C13-benign-default-bg-map-or", "prop": "C13", "benign": True,
+     "edits": [(I, "let bg = bg.unwrap_or_else(|| RGBA::new(0, 0, 0, 255));", "let bg = bg.map_or(RGBA::new(0, 0, 0, 255), |given| given);")]},
+    {"id": "C13-default-bg-match-white", "prop": "C13", "expect": "BLEND-AGREE/image::Image::quantize/default-bg",
+     "edits": [(I, "let bg = bg.unwrap_or_else(|| RGBA::new(0, 0, 0, 255));",
+                "let bg = match bg {\n            Some(bg) => bg,\n            None => RGBA::new(255, 255, 255, 255),\n        };")]},
+    {"id": "C13-default-bg-match-ignores-given", "prop": "C13", "expect": "BLEND-AGREE/image::Image::quantize/default-bg",
+     "edits": [(I, "let bg = bg.unwrap_or_else(|| RGBA::new(0, 0, 0, 255));",
+                "let bg = match bg {\n            Some(_) => RGBA::new(0, 0, 0, 255),\n            None => RGBA::new(0, 0, 0, 255),\n        };")]},
+    {"id": "C13-default-bg-match-transparent", "prop": "C13", "expect": "BLEND-AGREE/image::Image::quantize/default-bg",
+     "edits": [(I, "let bg = bg.unwrap_or_else(|| RGBA::new(0, 0, 0, 255));",
+                "let bg = match bg {\n            Some(bg) => bg,\n            None => RGBA::new(0, 0, 0, 0),\n        };")]},
+    {"id": "C13-benign-argmin-loop", "prop": "C13", "benign": True,
+     "edits": [(I, ARGMIN_OLD,
+                "            let mut best: Option<(usize, usize)> = None;\n            for (index, node) in tree.children.iter().enumerate() {\n"
+                "                let Some(min_tail_tree) = node.info().min_color_count else {\n                    continue;\n                };\n"
+                "                match best {\n                    Some((_, best_count)) if best_count <= min_tail_tree => {}\n"
+                "                    _ => best = Some((index, min_tail_tree)),\n                }\n            }\n            best.map(|(index, _)| index)\n")]},
+    {"id": "C13-benign-argmin-loop-index-only", "prop": "C13", "benign": True,
+     "edits": [(I, ARGMIN_OLD,
+                "            let mut best_index = None;\n            let mut best_count = usize::MAX;\n            for (index, node) in tree.children.iter().enumerate() {\n"
+                "                if let Some(count) = node.info().min_color_count {\n                    if best_index.is_none() || count < best_count {\n"
+                "                        best_index = Some(index);\n                        best_count = count;\n                    }\n                }\n            }\n            best_index\n")]},
+    {"id": "C13-argmin-loop-counts-empty-children", "prop": "C13", "expect": "OCTREE-INV",
+     "edits": [(I, ARGMIN_OLD,
+                "            let mut best: Option<(usize, usize)> = None;\n            for (index, node) in tree.children.iter().enumerate() {\n"
+                "                let min_tail_tree = node.info().min_color_count.unwrap_or(0);\n"
+                "                match best {\n                    Some((_, best_count)) if best_count <= min_tail_tree => {}\n"
+                "                    _ => best = Some((index, min_tail_tree)),\n                }\n            }\n            best.map(|(index, _)| index)\n")]},
+    {"id": "C13-argmin-loop-returns-count", "prop": "C13", "expect": "OCTREE-INV",
+     "edits": [(I, ARGMIN_OLD,
+                "            let mut best: Option<(usize, usize)> = None;\n            for (index, node) in tree.children.iter().enumerate() {\n"
+                "                let Some(min_tail_tree) = node.info().min_color_count else {\n                    continue;\n                };\n"
+                "                match best {\n                    Some((_, best_count)) if best_count <= min_tail_tree => {}\n"
+                "                    _ => best = Some((index, min_tail_tree)),\n                }\n            }\n            best.map(|(_, count)| count)\n")]},
+    {"id": "C13-argmin-chain-returns-count", "prop": "C13", "expect": "OCTREE-INV",
+     "edits": [(I, "                .map(|(index, _)| index)\n        }\n\n        // recursive prune helper", "                .map(|(_, count)| count)\n        }\n\n        // recursive prune helper")]},
+    {"id": "C13-benign-octree-index-mask-distributed", "prop": "C13", "benign": True,
+     "edits": [(I, "let value = ((bits >> 21) | (bits >> 14) | (bits >> 7)) & 0b111;", "let value = ((bits >> 21) & 0b100) | ((bits >> 14) & 0b010) | ((bits >> 7) & 0b001);")]},
+    {"id": "C13-benign-octree-index-rem-eight", "prop": "C13", "benign": True,
+     "edits": [(I, "let value = ((bits >> 21) | (bits >> 14) | (bits >> 7)) & 0b111;", "let value = ((bits >> 21) | (bits >> 14) | (bits >> 7)) % 8;")]},
+    {"id": "C13-octree-index-mask-distributed-wide", "prop": "C13", "expect": "OCTREE-INV",
+     "edits": [(I, "let value = ((bits >> 21) | (bits >> 14) | (bits >> 7)) & 0b111;", "let value = ((bits >> 21) & 0b100) | ((bits >> 14) & 0b1010) | ((bits >> 7) & 0b001);")]},
+    {"id": "C13-benign-palette-find-debug-assert", "prop": "C13", "benign": True,
+     "edits": [(I, "        self.kdtree.find(color)\n    }\n", "        let (index, found) = self.kdtree.find(color);\n        debug_assert!(index < self.colors.len());\n        (index, found)\n    }\n")]},
+    {"id": "C13-palette-find-pair-shifted", "prop": "C13", "expect": "INDEX-VALID/image::ColorPalette::find/delegate",
+     "edits": [(I, "        self.kdtree.find(color)\n    }\n", "        let (index, found) = self.kdtree.find(color);\n        (index + 1, found)\n    }\n")]},
 ]
